@@ -479,6 +479,23 @@ where
             .get(index as usize)
             .ok_or(VhostUserError::InvalidParam)?;
 
+        // The kick fd may be replaced while the vring is already started. Take the current fd out
+        // of the worker's epoll set before it gets closed.
+        if let Some(fd) = vring.get_ref().get_kick() {
+            for (thread_index, queues_mask) in self.queues_per_thread.iter().enumerate() {
+                let shifted_queues_mask = queues_mask >> index;
+                if shifted_queues_mask & 1u64 == 1u64 {
+                    let evt_idx = queues_mask.count_ones() - shifted_queues_mask.count_ones();
+                    let _ = self.handlers[thread_index].unregister_event(
+                        fd.as_raw_fd(),
+                        EventSet::IN,
+                        u64::from(evt_idx),
+                    );
+                    break;
+                }
+            }
+        }
+
         // SAFETY: EventFd requires that it has sole ownership of its fd. So
         // does File, so this is safe.
         // Ideally, we'd have a generic way to refer to a uniquely-owned fd,
@@ -487,6 +504,9 @@ where
 
         if self.vring_needs_init(vring) {
             self.initialize_vring(vring, index)?;
+        } else {
+            // Already started: the new fd has to be watched if the vring is enabled.
+            self.update_vring_registration(vring, index)?;
         }
 
         Ok(())
